@@ -35,7 +35,8 @@ CLAIMS["C01"] = dict(
          "Solver::satisfy, Solver::refine (tail fragments with loop contracts, any number of constraints) leave no constraint with slack < -1e-10 from EVERY state the "
          "unverified merge/split machinery could leave; solve()/IncSolver::solve() preserve this and copy positions last; addConstraint adds an inactive constraint only; "
          "one iteration of IncSolver::satisfy's merge/split loop flags a constraint only on evidence from its callees. Both copies of the solver (libvpsc and libavoid/vpsc.cpp) are covered. "
-         "'Flagged iff infeasible', finiteness and optimality are undecided residue.",
+         "A bounded completeness fragment: a direct active inequality between two variables is found as the split point (no spurious 'no split point' exception). "
+         "'Flagged iff infeasible' in general, finiteness and optimality are undecided residue.",
     note=BASE_TB + "Ghost-cell composition on paper; copyResult's all-n step is bounded (n<=4) plus an unbounded body fragment; scan jobs run with --no-pointer-check "
          "(elements other than the ghost one unconstrained); slack formula proved in scaled-integer mode (machine arithmetic treated as mathematical).",
     tech="CBMC code contracts + loop contracts on tail fragments of the real solver functions; ghost index/ghost cell for the universally quantified scan postcondition",
@@ -77,7 +78,7 @@ CLAIMS["C09"] = dict(
     text="Kernel clauses of C09 under contract: moveCentreX/Y, moveMinX/Y keep width/height and the other axis; overlapX/Y > 0 iff open extents intersect; every generated "
          "separation (the six sep expressions of generateX/YConstraints) separates its pair under any placement satisfying it; removeoverlaps restores the x/y border statics "
          "(projection fragment, two calls under different borders); generateX/YConstraints set every variable's desired position to its rectangle's current centre (loop shells "
-         "for any number of rectangles + projected bodies). 'No two rectangles overlap', acyclicity and the size of a fixed rectangle's movement are undecided residue.",
+         "for any number of rectangles + projected bodies); Solver::solve returns the state after refinement (C01's driver job, run here too). 'No two rectangles overlap', acyclicity and the size of a fixed rectangle's movement are undecided residue.",
     note=BASE_TB + "Scaled-integer mode (machine arithmetic treated as mathematical) for the size/separation jobs; projection fragment with a syntactic premise checked every run; "
          "exception path of removeoverlaps not covered.",
     tech="CBMC harness proofs on verbatim slices of inline members and expression/projection fragments; scaled-integer arithmetic mode; native multi-call replay",
@@ -128,7 +129,8 @@ CLAIMS["C08"] = dict(
     cat="other",
     text="PARTIAL: only two translation links of C08 are decided, by contract proofs; the statement itself (no overlap / containment in the result) is not. "
          "(1) ClusterContainmentConstraints::generateSeparationConstraints: each member entry yields, in its own dimension only, the inequality that keeps the member at least its "
-         "offset inside the named cluster boundary variable, creator set, every entry visited (loop body + loop shell, any number of entries). "
+         "offset inside the named cluster boundary variable, creator set, every entry visited (loop body + loop shell, any number of entries); the constructor records, for "
+         "each child cluster, the four entries that hold its boundary variables inside the parent's. "
          "(2) NonOverlapConstraints::generateSeparationConstraints for one pair of plain shapes: a pair overlapping in the other axis by more than 0.0005 gets exactly one separation "
          "in this axis, the shape with the smaller centre first, gap = sum of the two half sizes; otherwise nothing. "
          "NOT decided: pairs involving clusters, the pair list / exemptions, the constructor's offsets, makeFeasible's four alternatives, the descent loop (C07 residue).",
